@@ -95,5 +95,17 @@ func (e *VerifC07Env) FinishReq(req *bfe_basic.Request) int {
 	return e.srv.ReverseProxy.FinishReq(nil, req)
 }
 
+// AddFilter registers a callback at any callback point (HandleRequestFinish, HandleBeforeLocation, ...),
+// in call order.
+func (e *VerifC07Env) AddFilter(point int, f interface{}) error {
+	return e.srv.CallBacks.AddFilter(point, f)
+}
+
+// ServeHTTP runs the real ReverseProxy.ServeHTTP (usable for requests that a HandleBeforeLocation callback
+// ends before product / cluster lookup).
+func (e *VerifC07Env) ServeHTTP(rw bfe_http.ResponseWriter, req *bfe_basic.Request) int {
+	return e.srv.ReverseProxy.ServeHTTP(rw, req)
+}
+
 // VerifC07CloseAfterReply is the action value clusterInvoke returns for a Finish verdict.
 const VerifC07CloseAfterReply = closeAfterReply
